@@ -1,9 +1,9 @@
 SPECIFICATION Spec
 CONSTANTS
-  Gaps <- Gaps3
+  Gaps <- Gaps2
   T = 10
   Goals = {12}
-  MaxEvents = 5
+  MaxEvents = 3
   MaxClears = 1
   Hosts = {"a", "b"}
   Strict = TRUE
